@@ -36,7 +36,9 @@ func nilRegistry() *Registry {
 		{name: "nil-single", uri: "verif://nil/single", class: "free",
 			single: func(ctx context.Context, req *mcp.ReadResourceRequest) (mcp.ResourceContents, error) { return nil, nil }},
 		{name: "nil-multi", uri: "verif://nil/multi", class: "free",
-			multi: func(ctx context.Context, req *mcp.ReadResourceRequest) ([]mcp.ResourceContents, error) { return nil, nil }},
+			multi: func(ctx context.Context, req *mcp.ReadResourceRequest) ([]mcp.ResourceContents, error) {
+				return nil, nil
+			}},
 		{name: "nil-item", uri: "verif://nil/item", class: "free",
 			multi: func(ctx context.Context, req *mcp.ReadResourceRequest) ([]mcp.ResourceContents, error) {
 				return []mcp.ResourceContents{nil}, nil
